@@ -1436,6 +1436,14 @@ class Gen(object):
         t = self.rng.choice(slots)
         v = t["arr"]["v"]
         lo, hi = v[0], v[-1]
+        if self.rng.random() < 0.4:
+            # nearly the same numbers: through float32 and back, or off by a few parts in 1e8 (an 'is it the same?'
+            # test that is not exact takes one for the other)
+            new = [float(np.float32(x)) for x in v] if self.rng.random() < 0.5 else [x * (1.0 + 3e-8 * ((i % 3) - 1)) for i, x in enumerate(v)]
+            if new != v:
+                t["arr"]["v"] = new
+                self.sibling_call = op
+                return dict(op)
         inner = [round(lo + (hi - lo) * ((i + 1) / (len(v) - 1)) ** 2, 6) for i in range(len(v) - 2)]
         new = [lo] + inner + [hi]
         if new == v:
